@@ -99,6 +99,17 @@ Theorem C06_hasnext_exact : forall N MM frame wf, 0 < N -> frame_ok frame wf ->
   out s ++ [OHas la (j0 s la <? length (acc s))%nat (length (acc s)) (cons s) (peek s)].
 Proof. exact top_hasnext_exact. Qed.
 
+(* wait-freedom: every step of an operation lowers a rank that depends only on
+   the thread's own program counter (writer: <= len + 9, reader: <= 2N + 11), so
+   an operation ends after that many of its own steps whatever the other thread
+   does; with C06_written and C06_drop_only_if: a write that fits is accepted *)
+Theorem C06_wait_free : forall N MM frame wf, 0 < N -> frame_ok frame wf ->
+  forall ws rs sched, script_ok wf ws ->
+  let s := reach N MM frame ws rs sched in
+  (wp s <> WIdle -> 0 <= wrank (wp (wstep N MM s)) < wrank (wp s)) /\
+  (rp s <> RIdle -> 0 <= rrank N (rp (rstep N MM frame s)) < rrank N (rp s)).
+Proof. exact top_wait_free. Qed.
+
 (* data-race freedom: the buffer cell the writer is about to store to is never
    one the reader is about to load *)
 Theorem C06_drf : forall N MM frame wf, 0 < N -> frame_ok frame wf ->
